@@ -498,6 +498,9 @@ def run(ctx):
     # never publishes the seqno.
     commit_cannot_fail_halfway(ctx, "R-C03.10")
 
+    # ---- R-C03.16 I/O errors stay I/O errors in the entry decoder
+    io_errors_stay_io_errors(ctx, "R-C03.16")
+
     # ---- cross-cutting disciplines (rules/discipline.py)
     from .. import discipline as D
     # framing, tail repair and commit errors surface
@@ -535,3 +538,37 @@ def commit_cannot_fail_halfway(ctx, rule):
         detail = "from the first applied item on, every path of WriteBatch::commit reaches the publish" if ok else \
             "WriteBatch::commit can return (bb%d) from inside the apply loop without publishing: the batch is in the journal, some keyspaces have received their items and others have not — a failed commit leaves effects, and they surface with the next unrelated write or a reopen" % esc[0]
     ctx.ob(rule, wb, "no-exit-between-first-apply-and-publish", ok, detail)
+
+
+def io_errors_stay_io_errors(ctx, rule):
+    """R-C03.16: inside Entry::decode_from every failing READ surfaces as Error::Io.  JournalReader::next lets only Error::Io
+    (other than an unexpected EOF) fail the open and takes every other error for the torn tail, truncating the journal there;
+    a read that goes through a foreign decoder (lsm-tree's CompressionType::decode_from) and is converted with the blanket
+    From<lsm_tree::Error> arrives as Error::Storage(Io): a transient read error would cut acknowledged batches off."""
+    dec = ctx.fn("journal::entry::Entry::decode_from", rule)
+    if not dec:
+        return
+    og = ctx.og(dec)
+    n = 0
+    for b, t in dec.calls():
+        if t["dest"]["p"]:
+            continue
+        ty = dec.local_ty(t["dest"]["l"])
+        if not (ty.startswith("std::result::Result<") and "lsm_tree::Error" in ty):
+            continue
+        # does the call read from the reader?
+        if not any(A.strip(og.of_operand(a)).k == "param" and A.strip(og.of_operand(a)).a[0] == 1 for a in t["args"]):
+            continue  # (only calls that are handed the reader itself)
+        n += 1
+        rf = A.result_flow(dec, b)
+        ok = False
+        for kind, cl in rf.handlers:
+            cf = ctx.F.fns.get(cl) if cl else None
+            if cf and any(st["rv"]["k"] == "agg" and st["rv"].get("adt") == "error::Error" and st["rv"].get("variant") == "Io" for blk in cf.blocks for st in blk["s"]):
+                ok = True
+        who = [p_.split(" ")[0] for p_ in A.cname(t).replace("<", "::").replace(">", "::").split("::") if p_ and p_[0].isupper() and not p_.startswith("Decode")]
+        ctx.ob(rule, dec, "read-through-%s-keeps-io-errors-io" % (who[0] if who else "foreign-decoder"), ok,
+               "an lsm_tree::Error::Io from %s is mapped to Error::Io" % A.cname(t) if ok else
+               "%s reads from the journal and its lsm_tree::Error is converted with `?`: a failing read arrives as Error::Storage(Io), which the journal reader takes for a torn tail — the journal is truncated at a record that is perfectly fine on disk" % A.cname(t),
+               dec.loc(b))
+    ctx.floor(rule, "foreign decoders reading from the journal in decode_from", n, 1)
